@@ -415,15 +415,25 @@ def one(ctx, builds, rng, k):
     dup = rng.random() < 0.05
     text = base_text + print_cls(c)
     if dup:
-        # declare an existing component a second time
-        first = next((d for e in c["first"] if e["kind"] == "clause" for d in e["decls"]), None)
+        # declare an existing component a second time, in one of several shapes
+        clauses = [e for e in c["first"] if e["kind"] == "clause"]
+        first = next((d for e in clauses for d in e["decls"]), None)
         if first is None:
             dup = False
         else:
-            text = text.replace("end M;\n", "")
-            # re-open: append a duplicate declaration in a new public section
-            text = base_text + print_cls(c).rsplit("end M;", 1)[0] + "public\n  Real %s;\nend M;\n" % first["name"]
-            # if the last part is an equation section, the appended 'public' section is still valid Modelica
+            shape = rng.choice(["new-section", "same-clause", "same-clause-last", "next-clause", "other-type", "nth-declarator"])
+            ctx.cover("duplicate-shape:" + shape)
+            body = print_cls(c)
+            nm = first["name"]
+            if shape == "new-section":
+                text = base_text + body.rsplit("end M;", 1)[0] + "public\n  Real %s;\nend M;\n" % nm
+            elif shape in ("same-clause", "same-clause-last", "next-clause", "other-type", "nth-declarator"):
+                head = "%s %s" % (body.split("\n", 1)[0], "")
+                extra = {"same-clause": "  Real dq1, dq1;\n", "same-clause-last": "  Real dq1, dq2[2], dq1 = 3;\n",
+                         "next-clause": "  Real dq1;\n  Real dq1;\n", "other-type": "  Real dq1;\n  Integer dq1;\n",
+                         "nth-declarator": "  Real dq1;\n  parameter Real dq2 = 1, dq3 = 2, dq1 = 3;\n"}[shape]
+                lines = body.split("\n")
+                text = base_text + "\n".join([lines[0], extra.rstrip("\n")] + lines[1:])
     nclauses = sum(1 for e in c["first"] if e["kind"] == "clause") + sum(1 for p in c["parts"] if p[0] == "vis" for e in p[2] if e["kind"] == "clause")
     nt = (nclauses >= 2 and "multi-declarator-clause" in g.tags) or len(c["parts"]) >= 2
     ctx.case(text, nt, {"text": text} if k < 1 else None)
